@@ -8,7 +8,8 @@ The two ways hand the same stages (mono → lift → anf → go) a Core file tha
 respects only: the packages' functions are concatenated in another order (discovery order vs
 topological order), and the temporaries of `compile_match` are numbered from another offset (one
 `Gensym` for the whole program vs one per package).  The theorems say that `Sem.run` does not see
-either difference; `validate_sound` packages both into a verified validator that the check runs on
+either difference — closures included: the values of the two runs are related (`Alpha.VRel`), their
+observable outcomes equal; `validate_sound` packages both into a verified validator that the check runs on
 the real Core of both ways.
 -/
 namespace Goml.C14
@@ -33,9 +34,23 @@ theorem run_alpha_invariant_partial (P : Prog) (σs : String → String → Stri
     run fuel (renP σs P) entry eager = run fuel P entry eager :=
   run_alpha H fuel entry eager
 
+/-- **names of bound variables are irrelevant, closures included**: renaming every function of a program by its
+    own renaming `σs f` does not change `Sem.run` — stdout, the way of ending and the extern events are EQUAL —
+    provided each renaming is injective on the names its function mentions (`Ns f`), every variable it moves is
+    bound by a `let` inside the body, and no closure parameter is moved (`scC`; a closure value may be applied to
+    fewer arguments than it has parameters, so a parameter is not known to be bound).  Closure expressions,
+    closure values in environments, in the `Ref` store, in data, returned, passed and called through locals
+    are all covered: the proof relates the values of the two runs by `Alpha.VRel` (a closure is related to the
+    closure whose body is the `σ`-renaming under a `σ`-renamed, value-wise related environment; stores related
+    cell by cell) instead of equating them.  All hypotheses are decidable. -/
+theorem run_alpha_invariant (P : Prog) (σs : String → String → String) (Ns : String → List String)
+    (H : HypC σs Ns P) (fuel : Nat) (entry : String) (eager : Bool) :
+    run fuel (renP σs P) entry eager = run fuel P entry eager :=
+  run_alpha_full H fuel entry eager
+
 /-- **verified validator**: if `validate σs Ns S W` accepts — every function of `S` has a twin in `W`
-    that is its `σs`-renaming (type annotations aside), `W` has no other function, the `dyn` tables
-    agree, and the hypotheses of the renaming theorem hold of `S` — then `W` and `S` run alike.
+    that is its `σs`-renaming (type annotations aside; closure expressions included), `W` has no other function,
+    the `dyn` tables agree, and the hypotheses of the renaming theorem hold of `S` — then `W` and `S` run alike.
     The check evaluates `validate` on the real linked Core (`S`) and the real whole-program Core
     (`W`) with `σs f` = the shift of `f`'s temporaries. -/
 theorem separate_eq_whole_validated (σs : String → String → String) (Ns : String → List String) (S W : Prog)
@@ -93,5 +108,48 @@ def exN (f : String) : List String :=
 
 example : validate exσ exN exS exW = true := by decide +kernel
 example : (run 100 exS).out = "42\n" ∧ (run 100 exW).out = "42\n" := by decide +kernel
+
+/-- closures: `Lib::mk` returns a closure that captures a renamed temporary and binds another one inside its
+    body; `main` stores the closure in a `Ref`, reads it back and calls it through a local -/
+def exCS : Prog :=
+  { fns := [
+      { name := "Lib::mk", generics := [], params := [("a/0", .int 32 true)], ret := .func [.int 32 true] (.int 32 true),
+        body := .letE "mtmp0" (.var "a/0" (.int 32 true))
+                  (.closure (.func [.int 32 true] (.int 32 true)) [("b/1", .int 32 true)]
+                    (.letE "x1" (.bin .add (.int 32 true) (.var "mtmp0" (.int 32 true)) (.var "b/1" (.int 32 true)))
+                      (.var "x1" (.int 32 true)))) },
+      { name := "main", generics := [], params := [], ret := .unit,
+        body := .letE "r/0" (.call .unit (.var "ref" .unit) [.call .unit (.var "Lib::mk" .unit) [.prim (.int 32 true 40)]])
+                  (.letE "f/1" (.call .unit (.var "ref_get" .unit) [.var "r/0" .unit])
+                    (.call .unit (.var "string_println" .unit)
+                      [.call .string (.var "int32_to_string" .unit)
+                        [.call (.int 32 true) (.var "f/1" .unit) [.prim (.int 32 true 2)]]])) }] }
+
+def exCW : Prog :=
+  { fns := [
+      { name := "main", generics := [], params := [], ret := .unit,
+        body := .letE "r/0" (.call .unit (.var "ref" .unit) [.call .unit (.var "Lib::mk" .unit) [.prim (.int 32 true 40)]])
+                  (.letE "f/1" (.call .unit (.var "ref_get" .unit) [.var "r/0" .unit])
+                    (.call .unit (.var "string_println" .unit)
+                      [.call .string (.var "int32_to_string" .unit)
+                        [.call (.int 32 true) (.var "f/1" .unit) [.prim (.int 32 true 2)]]])) },
+      { name := "Lib::mk", generics := [], params := [("a/0", .int 32 true)], ret := .func [.int 32 true] (.int 32 true),
+        body := .letE "mtmp3" (.var "a/0" (.int 32 true))
+                  (.closure (.func [.int 32 true] (.int 32 true)) [("b/1", .int 32 true)]
+                    (.letE "x4" (.bin .add (.int 32 true) (.var "mtmp3" (.int 32 true)) (.var "b/1" (.int 32 true)))
+                      (.var "x4" (.int 32 true)))) }] }
+
+def exCσ (f : String) : String → String :=
+  if f = "Lib::mk" then fun x => if x = "mtmp0" then "mtmp3" else if x = "x1" then "x4" else x else fun x => x
+
+def exCN (f : String) : List String :=
+  if f = "Lib::mk" then ["a/0", "mtmp0", "b/1", "x1"]
+  else ["r/0", "f/1", "ref", "ref_get", "Lib::mk", "string_println", "int32_to_string"]
+
+example : validate exCσ exCN exCS exCW = true := by decide +kernel
+example : (run 100 exCS).out = "42\n" ∧ (run 100 exCW).out = "42\n" := by decide +kernel
+/-- the renaming theorem's hypotheses hold of `exCS` (closure body binds a moved name, captures another) -/
+example : HypC exCσ exCN exCS :=
+  ⟨by decide +kernel, by decide +kernel, by decide +kernel⟩
 
 end Goml.C14
